@@ -100,6 +100,11 @@ func runC06(t *testing.T, r *engine.Run) {
 		return
 	}
 	wd := newWorld(tp, []string{"ServiceEntry", "ServiceEntry", "DestinationRule", "DestinationRule", "PeerAuthentication", "Sidecar", "VirtualService", "WorkloadEntry"})
+	defer func() {
+		if wd.raced {
+			r.Probe("pushrace_tagged_run")
+		}
+	}()
 	wd.meshOn = tp.Bool(1, 2, "meshOn") // mesh configuration reloads: forced pushes, whose only cache invalidation is ClearAll
 	// freeze point: one victim proxy parks on its EDS cache miss path
 	var victim *xdsClient
